@@ -279,7 +279,7 @@ func c18FileMode(c *Ctx, path string, src []byte, out *ndjson, resolved bool) {
 // mode: "" (nil importer, nil universe), "universe" (a universe scope with the predeclared types, nil
 // importer: every import fails), "importer" (universe + an importer that knows fmt and fails on others)
 func c18Package(c *Ctx, key string, srcs map[string][]byte, out *ndjson) {
-	for _, mode := range []string{"", "universe", "importer"} {
+	for _, mode := range []string{"", "universe", "importer", "importer+C"} {
 		c18PackageMode(c, key, srcs, out, mode)
 	}
 }
@@ -346,10 +346,13 @@ func c18PackageMode(c *Ctx, key string, srcs map[string][]byte, out *ndjson, mod
 				duni.Insert(dst.NewObj(dst.Typ, n))
 			}
 		}
-		if mode == "importer" {
+		if mode == "importer" || mode == "importer+C" {
 			// the importer knows fmt (no exported names recorded), lib and lib2 (package objects whose Data scope
 			// holds their exported objects, which is what a dot-import merges into the file scope)
 			exports := map[string][]string{"fmt": {}, "lib": {"Foo", "Bar"}, "lib2": {"Foo", "Baz"}}
+			if mode == "importer+C" {
+				exports["C"] = []string{} // an importer that delivers the cgo pseudo-package too
+			}
 			aimp = func(imports map[string]*ast.Object, path string) (*ast.Object, error) {
 				names, ok := exports[path]
 				if !ok {
@@ -486,6 +489,9 @@ func checkC18(c *Ctx) {
 		"raw-and-escaped-paths": {"a.go": []byte("package p\n\nimport `fmt`\n\nimport l \"l\\x69b\"\n\nvar X = fmt.Sprint(l.Foo, missing)\n"), "b.go": []byte("package p\n\nimport . `lib2`\n\nvar Y = Baz + X\n")},
 		// an import the importer cannot deliver in front of imports it can: the later ones are still imported
 		"unknown-then-known": {"a.go": []byte("package p\n\nimport (\n\t\"nowhere/pkg\"\n\t\"fmt\"\n\tl \"lib\"\n)\n\nvar X = fmt.Sprint(l.Foo, pkg.Y)\n"), "b.go": []byte("package p\n\nimport (\n\t\"lib2\"\n\t\"elsewhere\"\n)\n\nvar Y = lib2.Baz + elsewhere.Z\n")},
+		// a cgo file: "C" is an import like any other to NewPackage (the importer is asked, the name C is declared
+		// in the file scope or the failure is reported)
+		"cgo": {"a.go": []byte("package p\n\n// #include <stdio.h>\nimport \"C\"\n\nimport \"fmt\"\n\nfunc F() string { C.puts(C.CString(\"x\")); return fmt.Sprint(C.int(1)) }\n"), "b.go": []byte("package p\n\nvar Y = F()\n")},
 		"cycle":              {"a.go": []byte("package p\n\ntype A struct{ b *B }\n\nvar X = Y\n"), "b.go": []byte("package p\n\ntype B struct{ a *A }\n\nvar Y = X\n\nconst (\n\tC0 = iota\n\tC1\n)\n")},
 	}
 	var keys []string
